@@ -1024,7 +1024,18 @@ impl<Front: SocketHandler + std::fmt::Debug, L: ListenerHandler + L7ListenerHand
                         dead_backends.push(*token);
                     }
 
-                    if !client.readiness().filter_interest().is_empty() {
+                    // A dead backend that is parked on a full stream buffer can
+                    // make no progress on its own: its HUP/ERROR bit never leaves
+                    // `filter_interest()`, the bytes still in its socket can only
+                    // be read once the frontend has drained the buffer, and that
+                    // path (`try_resume_reading` after `frontend.writable`) re-arms
+                    // it. Counting it as "ready" kept this loop spinning while the
+                    // client was slow, until the iteration budget closed the
+                    // session and cut the response short.
+                    let waiting_for_frontend = dead
+                        && !client.readiness().filter_interest().is_readable()
+                        && client.has_buffer_pressure(&self.context);
+                    if !client.readiness().filter_interest().is_empty() && !waiting_for_frontend {
                         all_backends_readiness_are_empty = false;
                     }
                 }
